@@ -197,6 +197,10 @@ struct StakingWorld {
     paid: BigUint,
     paid_base: BigUint,
     base_budget: BigUint,
+    /// boosted rewards paid so far = Σ of the observed decreases of the weekly pools outside collectUndistributed
+    paid_boosted: BigUint,
+    /// Σ of the observed increases of the current week's `accumulatedRewardsForWeek` (the boosted cut as the contract booked it)
+    boosted_budget: BigUint,
     funded: BigUint, // staking tokens ever credited to accounts by the harness (top-ups)
     frozen: BTreeMap<u64, BigUint>,   // week -> pool R(week) when first collected
     paid_week: BTreeMap<u64, BigUint>, // week -> boosted paid
@@ -501,6 +505,14 @@ impl StakingWorld {
             let hs = ti.holders.iter().map(|(i, a)| format!("{}:{}", self.name(*i), a)).collect::<Vec<_>>().join("+");
             out += &format!(" t{}={}@{}", n, m, hs);
         }
+        // the harness's own ledgers (built in `oracles_after` from the real contract's observable deltas only); the model driver
+        // prints its ghost fields baseBudget / boostedBudget / paidBase / paidBoosted / b.collected / b.paid in the same format
+        let wmap = |m: &BTreeMap<u64, BigUint>| -> String {
+            let v: Vec<String> = m.iter().filter(|(_, a)| !a.is_zero()).map(|(w, a)| format!("{}:{}", w, a)).collect();
+            if v.is_empty() { "-".to_string() } else { v.join(",") }
+        };
+        out += &format!(" led=bud:{},{};paid:{},{};pool:{};pw:{}", self.base_budget, self.boosted_budget, self.paid_base,
+            self.paid_boosted, wmap(&self.frozen), wmap(&self.paid_week));
         out
     }
 }
@@ -742,6 +754,9 @@ impl StakingWorld {
                     tr.fail("C06", "boosted_cut_to_current_week", site,
                         &format!("week {w}: accumulated {} -> {}, cut {}", pw.acc, qw.acc, cut));
                 }
+                if qw.acc > pw.acc {
+                    self.boosted_budget += &qw.acc - &pw.acc;
+                }
             }
             if qw.rem > before {
                 tr.fail("C11", "remaining_grew", site, &format!("week {w}: remaining {} -> {}", before, qw.rem));
@@ -765,6 +780,7 @@ impl StakingWorld {
                 }
             }
         }
+        self.paid_boosted += &actual_boosted;
         if let Some(u) = info.boosted_user {
             match self.expected_boosted(pre, u) {
                 Some(e) => {
@@ -993,6 +1009,7 @@ impl World for StakingWorld {
         StakingWorld {
             b, owner, nusers, addrs, farm, ef, hub, block, epoch, dsc,
             virt: BigInt::zero(), paid: BigUint::zero(), paid_base: BigUint::zero(), base_budget: BigUint::zero(),
+            paid_boosted: BigUint::zero(), boosted_budget: BigUint::zero(),
             funded, frozen: BTreeMap::new(), paid_week: BTreeMap::new(), taken_week: BTreeMap::new(),
             factors_log: vec![], first_factors: None, hub_pairs: vec![], last_quote: None, pending: vec![],
             header: header.to_string(), quiet: false, log: vec![],
